@@ -287,7 +287,7 @@ def t2_direct(ctx, r, spec, api, svc, mfiles, svc_idx):
     sels = gen_selectors(r, spec, ctx.n(24, 60))
     cases, ops = [], []
     for a, b in zip(sels[::2], sels[1::2]):
-        out = r.pick([OP_OUT, OP_OUT, OP_OUT, "." + spec["pkg"] + ".ThingRequest"])
+        out = r.pick([OP_OUT] * 8 + ["." + spec["pkg"] + ".ThingRequest", OP, ".x" + OP, OP_OUT + "s", OP_OUT + ".Inner", ".x" + OP_OUT])
         annotated = r.maybe(0.9)
         mp = descriptor_pb2.MethodDescriptorProto(name="Probe", input_type="." + spec["pkg"] + ".ThingRequest", output_type=out)
         if annotated:
